@@ -52,6 +52,8 @@ type plL struct {
 	Gapp   string `json:"gapp"`
 	Bad    string `json:"bad"`
 	Tmp    string `json:"tmp"`
+	Lk1    string `json:"lk1"`
+	Sib    string `json:"sib"`
 }
 type plURL struct {
 	Scheme string          `json:"scheme"`
@@ -129,7 +131,23 @@ func plGroup(l plL, variant int) *targetgroup.Group {
 	}
 	put("app", l.App)
 	put("1bad", l.Bad)
+	put("k1", l.Lk1)
 	g := &targetgroup.Group{Source: fmt.Sprintf("src-%d", variant), Targets: []model.LabelSet{tl}, Labels: gl}
+	// a sibling entry that Prometheus rejects (error for that entry only), before or after the target
+	var sib model.LabelSet
+	switch l.Sib {
+	case "noaddr":
+		sib = model.LabelSet{model.AddressLabel: "", "app": "s"}
+	case "badval":
+		sib = model.LabelSet{model.AddressLabel: "h9:1", "app": "\xff"}
+	}
+	if sib != nil {
+		if variant%2 == 0 {
+			g.Targets = append([]model.LabelSet{sib}, g.Targets...)
+		} else {
+			g.Targets = append(g.Targets, sib)
+		}
+	}
 	switch variant {
 	case 2:
 		g.Targets = append(g.Targets, tl.Clone())
